@@ -1902,7 +1902,10 @@ int main(int argc, char** argv) {
       fam.push_back(L);
   }
   en.push_back(family_case(fam));
-  en.push_back(probe_case());
+  // builders that do not compile cannot present a graph at all: outside C11's
+  // statement, kept as an opt-in diagnostic
+  if (getenv("VERIF_COMPILE_PROBES"))
+    en.push_back(probe_case());
   int rc = sx::sx_main(argc, argv, "C11", {}, en);
   // workers killed at a deadline cannot remove their scratch files
   grf::remove_stale("c11");
